@@ -82,7 +82,7 @@ const c09PubPipeline = "c09-publish"
 type c09COp struct {
 	GapUs    int64  `json:"gap_us"`
 	Align    int    `json:"align,omitempty"`
-	Kind     string `json:"kind"` // pub | resend | ping | puback | connect | disconnect
+	Kind     string `json:"kind"` // pub | resend | ping | puback | sub | unsub | connect | disconnect
 	Qos      int    `json:"qos,omitempty"`
 	Dup      bool   `json:"dup,omitempty"` // pub: DUP set although it is the first transmission
 	Retain   bool   `json:"retain,omitempty"`
@@ -112,6 +112,14 @@ func c09GenMQTTClients(rng *sim.Rand, sc *c09Scenario) {
 		sc.NoPubLimit = true
 	}
 	sc.PeriodS = rng.Pick(0, 1, 1, 2, 3)
+	if c09WideMQTT {
+		if rng.Bool(0.08) {
+			sc.PeriodS = 60
+		}
+		if rng.Bool(0.04) {
+			sc.BytesRate = 20000 // payloads of 5*bytesRate need a 3-byte remaining length
+		}
+	}
 	ps := sc.PeriodS
 	if ps == 0 {
 		ps = 1
@@ -147,6 +155,10 @@ func c09GenMQTTClients(rng *sim.Rand, sc *c09Scenario) {
 		connPct = rng.Pick(6, 15, 30)
 	}
 	otherPct := rng.Pick(0, 5, 10)
+	others := []string{"ping", "ping", "puback"}
+	if c09WideMQTT && rng.Bool(0.4) {
+		others = []string{"ping", "puback", "sub", "sub", "unsub"}
+	}
 	dropPct := rng.Pick(0, 0, 5, 15)
 	qos := [][]int{{0}, {1}, {0, 1}, {0, 1, 1}, {0, 1, 1, 1, 2}}[rng.Intn(5)]
 	perm := rng.Perm(len(c09CliIDs))
@@ -174,7 +186,7 @@ func c09GenMQTTClients(rng *sim.Rand, sc *c09Scenario) {
 			case x < resendPct+connPct:
 				op.Kind = rng.PickStr("connect", "connect", "disconnect")
 			case x < resendPct+connPct+otherPct:
-				op.Kind = rng.PickStr("ping", "ping", "puback")
+				op.Kind = others[rng.Intn(len(others))]
 			}
 			op.Qos = qos[rng.Intn(len(qos))]
 			op.Dup = rng.Intn(100) < dupPct
@@ -318,6 +330,7 @@ func c09ExecMQTTClients(e *c09Env, sc *c09Scenario, main *c09TL) {
 		sc.ReqRate, sc.BytesRate, pubPeriod, !sc.NoPubLimit, sc.ConnReqRate, sc.ConnBytesRate, connLed.period, r.Now())
 
 	var ledgers []*c09MLim
+	stored := false
 	lastLed := map[string]*c09MLim{}
 	probe := map[string]bool{}
 	P := func(c bool, n string) {
@@ -490,6 +503,7 @@ func c09ExecMQTTClients(e *c09Env, sc *c09Scenario, main *c09TL) {
 				led.obs = append(led.obs, o)
 				r.Eventf("%s PUBLISH qos=%d dup=%v retain=%v id=%d %dB fwd=%v ack=%v @%v", who, qos, dup, retain, mid, n, fwd, acked, o.a.Sub(e.base))
 				P(retain, "mqttc.retained_publish")
+				P(n >= 16384+4, "mqttc.publish_with_3_byte_remaining_length")
 				P(qos == 0, "mqttc.qos0_publish")
 				P(qos == 1, "mqttc.qos1_publish")
 				P(qos == 2, "mqttc.qos2_publish")
@@ -557,10 +571,28 @@ func c09ExecMQTTClients(e *c09Env, sc *c09Scenario, main *c09TL) {
 					}
 				}
 				switch op.Kind {
-				case "ping", "puback":
+				case "ping", "puback", "sub", "unsub":
 					var pk packets.ControlPacket
 					if op.Kind == "ping" {
 						pk = packets.NewControlPacket(packets.Pingreq)
+					} else if op.Kind == "sub" {
+						sp := packets.NewControlPacket(packets.Subscribe).(*packets.SubscribePacket)
+						sp.MessageID = uint16(op.Payload%100 + 1)
+						sp.Topics, sp.Qoss = []string{op.Topic}, []byte{byte(op.Qos % 2)}
+						if op.Topic == "" {
+							sp.Topics = []string{"t"}
+						}
+						pk = sp
+						stored = true
+					} else if op.Kind == "unsub" {
+						up := packets.NewControlPacket(packets.Unsubscribe).(*packets.UnsubscribePacket)
+						up.MessageID = uint16(op.Payload%100 + 1)
+						up.Topics = []string{op.Topic}
+						if op.Topic == "" {
+							up.Topics = []string{"t"}
+						}
+						pk = up
+						stored = true
 					} else {
 						a := packets.NewControlPacket(packets.Puback).(*packets.PubackPacket)
 						a.MessageID = uint16(op.Payload%7 + 1)
@@ -579,6 +611,7 @@ func c09ExecMQTTClients(e *c09Env, sc *c09Scenario, main *c09TL) {
 					led.obs = append(led.obs, c09MObs{seq: e.nextSeq(), who: who, a: time.Now(), info: true,
 						note: fmt.Sprintf("[%s: not a PUBLISH, takes no permit; limiter-asked=%d]", op.Kind, len(tl.nows))})
 					P(true, "mqttc.non_publish_packet")
+					P(op.Kind == "sub" || op.Kind == "unsub", "mqttc.subscribe_or_unsubscribe_between_publishes")
 					P(len(tl.nows) > 0, "mqttc.non_publish_packet_asked_the_limiter")
 					r.Eventf("%s %s @%v", who, op.Kind, r.Now())
 				case "resend":
@@ -624,6 +657,9 @@ func c09ExecMQTTClients(e *c09Env, sc *c09Scenario, main *c09TL) {
 		})
 	}
 	r.WaitTasks()
+	if stored {
+		r.Sleep(time.Millisecond) // session snapshots travel to the store in goroutines of their own
+	}
 
 	var sig strings.Builder
 	rej := 0
@@ -676,6 +712,8 @@ func c09ExecMQTTClients(e *c09Env, sc *c09Scenario, main *c09TL) {
 	P(pubLimited && sc.ReqRate > 0 && sc.BytesRate == 0, "mqttc.request_limiter_only")
 	P(pubLimited && sc.ReqRate == 0 && sc.BytesRate > 0, "mqttc.byte_limiter_only")
 	P(!pubLimited, "mqttc.publish_unlimited")
+	P(pubPeriod >= time.Minute, "mqttc.period_60s")
+	P(pubLimited && sc.BytesRate >= 20000, "mqttc.bytes_rate_20000")
 	P(all.rejReq, "mqttc.reject_by_request_rate")
 	P(all.rejBytes, "mqttc.reject_by_bytes_rate")
 	P(all.rejCarry, "mqttc.reject_only_by_carried_overshoot")
